@@ -69,11 +69,7 @@ pub fn worker_main(check: &dyn Check, args: &[String]) -> i32 {
 	let flags = &args[6];
 	let collect_hashes = flags.contains('h');
 	let id = check.info().id;
-	let known_open: Vec<String> = known::load()
-		.into_iter()
-		.filter(|f| f.property == id && f.status == "open")
-		.map(|f| f.signature)
-		.collect();
+	let _ = id;
 	let deadline_ms: u64 = std::env::var("KVERIF_DEADLINE_MS")
 		.ok()
 		.and_then(|s| s.parse().ok())
@@ -84,7 +80,6 @@ pub fn worker_main(check: &dyn Check, args: &[String]) -> i32 {
 	let mut out = stdout.lock();
 	let mut agg = Agg::default();
 	let mut sigs: HashSet<u64> = HashSet::new();
-	let mut known_seen: HashSet<String> = HashSet::new();
 	let mut index = start;
 	let mut code = 0;
 	while index < limit {
@@ -117,17 +112,12 @@ pub fn worker_main(check: &dyn Check, args: &[String]) -> i32 {
 		}
 		if let Some(v) = &r.violation {
 			if !r.inconclusive {
-				if known_open.contains(&v.signature) {
-					if known_seen.insert(v.signature.clone()) {
-						let _ = writeln!(out, "K {index} {}", json!({"case": case, "violation": violation_json(v)}));
-					}
-					agg.known_hits += 1;
-				} else {
-					let _ = writeln!(out, "V {index} {}", json!({"case": case, "violation": violation_json(v)}));
-					let _ = out.flush();
-					code = 1;
-					break;
-				}
+				// nothing is suppressed by signature: the input classes of open known findings
+				// are not generated, so whatever fails here is a violation that is not listed
+				let _ = writeln!(out, "V {index} {}", json!({"case": case, "violation": violation_json(v)}));
+				let _ = out.flush();
+				code = 1;
+				break;
 			}
 		}
 		index += stride;
@@ -603,14 +593,13 @@ pub fn run_batch(check: &dyn Check, opts: &BatchOptions) -> BatchResult {
 	}
 
 	// a hang / crash may itself be a listed known finding
-	let open_sigs: Vec<&Finding> = findings.iter().filter(|f| f.status == "open").collect();
 	let mut violations = 0;
 	let mut replay_path = None;
 	if let Some((idx, case, viol)) = first_violation {
 		let sig = viol["signature"].as_str().unwrap_or("").to_string();
-		if open_sigs.iter().any(|f| f.signature == sig) && (sig != "hang" && sig != "crash") {
-			// cannot happen (workers filter these), kept for safety
-		} else {
+		{
+			// (no suppression by signature: open known findings are avoided by the generators
+			// and shown by their witnesses; anything that fails in the batch is reported)
 			violations = 1;
 			if !opts.quiet {
 				eprintln!("violation at case {idx} (seed {}): {}", opts.seed, viol);
